@@ -9,6 +9,19 @@ def run(ck):
     open(cfg, "w").write("SPECIFICATION Spec\nCONSTANTS\n  Labels = {%s}\n  MaxLen = %d\nINVARIANT ResultIsSorted\nINVARIANT SameDenotation\n"
                          "INVARIANT DistinctLabelsSorted\nCHECK_DEADLOCK FALSE\n" % (("1, 2, 3, 4", 4) if ck.tier == "quick" else ("1, 2, 3, 4, 5", 5)))
     ck.model("MC_Oddpos.tla", cfg, timeout=3000)
+    # negative controls: a resolution that forgets its accumulated phase / the claim that no sign is ever needed must be
+    # rejected on the small alphabet - otherwise SameDenotation would be vacuous
+    ck.cov["negative_controls"] = []
+    for inv in ("ControlPhaseForgotten", "ControlNeverNegative"):
+        ncfg = os.path.join(ck.scratch, f"MC_OddposN_{inv}.cfg")
+        open(ncfg, "w").write("SPECIFICATION Spec\nCONSTANTS\n  Labels = {1, 2, 3}\n  MaxLen = 3\n"
+                              f"INVARIANT {inv}\nCHECK_DEADLOCK FALSE\n")
+        r, st = ck.model("MC_Oddpos.tla", ncfg, workers=1, expect_ok=False)
+        ck.cov["models"][-1]["negative_control"] = True    # stops at the expected counterexample, hence not "complete"
+        hit = f"Invariant {inv} is violated" in r["out"]
+        ck.cov["negative_controls"].append({"instance": "Labels 1..3, MaxLen 3", "invariant": inv, "violated_as_expected": hit})
+        if not hit:
+            ck.problems.append(f"negative control {inv} was not rejected by MC_Oddpos")
     q = ck.tier == "quick"
     # Machine.tla, chain instance: three tensors r1 - r2 - r3 (all charges, sparsity patterns and pending signs of the pool);
     # every route (which pair first, either operand order, fused / blockwise) is explored with the implementation-shaped
